@@ -670,6 +670,13 @@ class Real:
                     saver = mk(None)
                 with self.in_dir(self.elsewhere if self.rel else None):
                     saver.on_epoch_end(self.models[op["slot"]], op["path"])
+                if self.rel:
+                    # audit 3 (B5): WHERE a saver with a relative folder writes after the caller changed directory is not in C11's text. A
+                    # saver that wrote <cwd of the moment>/w/file<epoch>.pt (path kept as written, folder created at write time) did save:
+                    # the outcome is recorded by the hooks and the history ends there (the model's file map cannot follow)
+                    moved = os.path.join(self.elsewhere, "w", os.path.basename(self.where(op["path"])[0]))
+                    if os.path.exists(moved) and os.path.realpath(moved) != os.path.realpath(self.where(op["path"])[0]):
+                        self.unconstrained = "ModelSaver wrote under the working directory of the moment"
                 self.loc.pop(op["path"], None)   # ModelSaver writes to a path: the history's file is now that file, from its start
             elif t == "load":
                 if op.get("fobj") or self.must_be_fileobj(op["path"]):
@@ -727,8 +734,26 @@ _Recorder = _mk_recorder  # CallbackList only accepts CallbackBase instances
 
 
 # ---------------------------------------------------------------- canonicalisation of identities
+def by_key(entries):
+    """audit 3 (B9): the property fixes WHAT a checkpoint / a unitary dictionary holds, not the ORDER of its keys: entry lists
+    [[key, value], ...] are compared sorted by key (on both sides); anything else is returned unchanged"""
+    import json
+
+    def val(v):
+        if isinstance(v, dict) and isinstance(v.get("ud"), (list, tuple)):
+            return {**v, "ud": sorted((list(e) for e in v["ud"]), key=lambda e: json.dumps(e[0], sort_keys=True, default=str))}
+        return v
+
+    if isinstance(entries, dict):
+        return val(entries)
+    if isinstance(entries, (list, tuple)) and all(isinstance(e, (list, tuple)) and len(e) == 2 for e in entries):
+        return sorted(([e[0], val(e[1])] for e in entries), key=lambda e: json.dumps(e[0], sort_keys=True, default=str))
+    return entries
+
+
 def canon_world(w):
-    """replace network ids / tensor ids by first-occurrence class numbers (same traversal for both sides)"""
+    """replace network ids / tensor ids by first-occurrence class numbers (same traversal for both sides); key order of files and of
+    unitary dictionaries is normalised (by_key)"""
     nets, tens = {}, {}
 
     def cn(i):
@@ -743,11 +768,11 @@ def canon_world(w):
         return {"id": cn(n["id"]), "kind": n["kind"], "nv": n["nv"], "nh": n["nh"], "na": n["na"],
                 "params": [[p[0], ct(p[1]), list(p[2]), p[3]] for p in n["params"]]}
 
-    out = {"states": {}, "modules": {}, "metas": {}, "files": w["files"]}
+    out = {"states": {}, "modules": {}, "metas": {}, "files": {p: by_key(f) for p, f in w["files"].items()}}
     for s in sorted(w["states"]):
         st = w["states"][s]
         out["states"][s] = {"kind": st["kind"], "nv": st["nv"], "nh": st["nh"], "na": st["na"],
-                            "nets": [[n, net(x)] for n, x in st["nets"]], "ud": st["ud"]}
+                            "nets": [[n, net(x)] for n, x in st["nets"]], "ud": by_key(st["ud"]) if st["ud"] is not None else None}
     for s in sorted(w["modules"]):
         out["modules"][s] = net(w["modules"][s])
     for s in sorted(w["metas"]):
